@@ -923,3 +923,59 @@ func c08MayThinkExecuting(c *Ctx) *RuleResult {
 	}
 	return r
 }
+
+// schedNoExecuteAfterComplete: a worker is never told to execute a task the scheduler has just completed.
+func schedNoExecuteAfterComplete(c *Ctx) *RuleResult {
+	r := &RuleResult{Rule: c.Prop + ".no-execute-after-complete", Floor: 1,
+		Doc: "once a task has completed no worker is told to (re)start it: in the worker's methods no return of an 'execute this task' response (the executing desired-state literal, or the result of the helper that builds it) is reachable from a task.complete call of the same function"}
+	p := c.P
+	complete := p.LookupFunc(schedPkg, "task.complete")
+	builder := p.LookupFunc(schedPkg, "worker.getExecutingSynchronizeResponse")
+	for _, u := range p.UnitsIn(schedPkg) {
+		if u.Decl.Recv == nil || recvTypeName(u) != "worker" {
+			continue
+		}
+		info := u.Info()
+		sites := CallsTo([]*FuncUnit{u}, complete)
+		if len(sites) == 0 {
+			continue
+		}
+		isExecResp := func(e ast.Expr) bool {
+			e = ast.Unparen(resolveLocalAlias(u, e))
+			if call, ok := e.(*ast.CallExpr); ok && calleeOf(info, call) == builder {
+				return true
+			}
+			found := false
+			ast.Inspect(e, func(n ast.Node) bool {
+				if cl, ok := n.(*ast.CompositeLit); ok {
+					if tv, ok := info.Types[cl]; ok && strings.HasSuffix(tv.Type.String(), "DesiredState_Executing_") {
+						found = true
+					}
+				}
+				return true
+			})
+			return found
+		}
+		g := NewFuncCFG(info, u.Decl.Body)
+		construct := constructOf(u, "no execute response after complete")
+		bad := ""
+		ast.Inspect(u.Decl.Body, func(n ast.Node) bool {
+			ret, ok := n.(*ast.ReturnStmt)
+			if !ok || len(ret.Results) == 0 || !isExecResp(ret.Results[0]) {
+				return true
+			}
+			for _, cs := range sites {
+				if reach, _ := g.ReachableWithout(cs.Node, ret, func(ast.Node) bool { return false }); reach {
+					bad = posOf(p, ret)
+				}
+			}
+			return true
+		})
+		if bad == "" {
+			r.ok(construct, posOf(p, u.Decl), "no executing response is returned after the task was completed")
+		} else {
+			r.bad(c.Prop, construct, bad, "after completing the worker's task (retry limit, ...) the same call can still return a response telling the worker to execute it: a completed task is restarted")
+		}
+	}
+	return r
+}
